@@ -308,7 +308,7 @@ def stage_dump(tier, module="MC_Small.tla", base="MC_Dump", name="dump", segment
 EVICTING = {"insert", "mutate", "set_max_size"}
 PROMOTING = {"insert", "try_insert", "get", "get_entry", "get_lru", "touch", "mutate"}
 READ_OPS = {"peek", "peek_entry", "peek_lru", "peek_mru", "contains", "len", "is_empty",
-            "current_size", "max_size", "capacity", "debug", "iter", "keys", "values", "clone",
+            "current_size", "max_size", "capacity", "debug", "hasher", "iter", "keys", "values", "clone",
             "clone_from"}
 CAP_OPS = {"reserve", "try_reserve", "shrink_to", "shrink_to_fit"}
 ITER_KINDS = {"iter", "keys", "values", "drain", "into_iter", "into_keys", "into_values"}
@@ -1018,6 +1018,8 @@ def ret_owner(op, tag):
         return ["C02"]
     if op == "max_size":
         return ["C01"]
+    if op == "hasher":
+        return ["C19"]
     if op in ITER_KINDS:
         return ["C12"]
     return ["C04"]
